@@ -102,12 +102,12 @@ FLOORS = {
 
 # size of the deterministic parts (totals over all shards): stride through the enumerations
 SIZES = {
-    'quick': {'tie_stride': 67, 'near_every': 1, 'mult_stride': 997, 'fam_m_dense': 60, 'fam_m_sparse': 60,
+    'quick': {'tie_stride': 67, 'mult_stride': 997, 'fam_m_dense': 60, 'fam_m_sparse': 60,
               'mod_m_dense': 60, 'mod_m_sparse': 40, 'int_dense': 300, 'int_sparse': 2000,
               'random': 160000, 'formula_every': 100},
-    'thorough': {'tie_stride': 1, 'near_every': 1, 'mult_stride': 13, 'fam_m_dense': 1500, 'fam_m_sparse': 1500,
-                 'mod_m_dense': 1500, 'mod_m_sparse': 1000, 'int_dense': 20000, 'int_sparse': 100000,
-                 'random': 6000000, 'formula_every': 100},
+    'thorough': {'tie_stride': 1, 'mult_stride': 29, 'fam_m_dense': 1500, 'fam_m_sparse': 1500,
+                 'mod_m_dense': 1500, 'mod_m_sparse': 1000, 'int_dense': 20000, 'int_sparse': 30000,
+                 'random': 3000000, 'formula_every': 100},
 }
 
 
@@ -254,6 +254,7 @@ class Monitor:
         self.n = 0
         self.every = SIZES[ctx.tier]['formula_every']
         self.pending = []
+        self.sampled = set()
 
     def observe(self, F, args, sig=False):
         ctx = self.ctx
@@ -268,8 +269,9 @@ class Monitor:
             self.pending.append((F, args, out))
             if len(self.pending) >= 40:
                 self.flush()
-        if self.n % 5000 == 1:
-            ctx.sample({'f': F, 'args': args, 'outcome': out, 'verdict': verdict and verdict[0]})
+        if F not in self.sampled and self.n % 997 == 1:
+            self.sampled.add(F)
+            ctx.sample({'f': F, 'args': args, 'outcome': out, 'verdict': verdict and verdict[0]}, limit=6)
         return out
 
     def account(self, F, args, out, sig):
@@ -309,8 +311,7 @@ class Monitor:
         pos = R.grid_position(x, d)
         cls = {'multiple': 'multiple', 'tie': 'tie'}.get(pos, 'other')
         if cls == 'other':
-            a = abs(R.frac(x)) / R.pow10(-d)
-            if abs(2 * (a - math.floor(a)) - 1) <= Fraction(1, 5):
+            if abs(2 * R.grid_fraction(x, d) - 1) <= Fraction(1, 5):
                 cls = 'near-tie'
         ctx.count('round:' + cls)
         if cls == 'tie':
@@ -366,10 +367,11 @@ class Monitor:
 
 
 def formula_text(F, args, row, by_ref):
-    """(formula, {coord: value}) for one call; numbers and blanks go through cells when by_ref"""
+    """(formula, {coord: value}) for one call; numbers go through cells when by_ref, a blank
+    argument is always a reference to an empty cell"""
     cells, parts = {}, []
     for i, a in enumerate(args):
-        if by_ref and (a is None or R.is_num(a)):
+        if a is None or (by_ref and R.is_num(a)):
             c = f'{"ABC"[i]}{row}'
             if a is not None:
                 cells[c] = a
@@ -550,6 +552,14 @@ def ints(mon, part, size, offset):
                     mon.observe(F, (v,))
 
 
+def in_bounds(F, args):
+    """digit counts stay within -6..6 also when they arrive as numeric text"""
+    if F in ROUNDERS and len(args) > 1:
+        d = R.coerce(args[1])
+        return isinstance(d, str) or -6 <= d <= 6
+    return True
+
+
 def coercions(mon, part):
     """numeric text, logicals, blanks, text and error values in every argument position"""
     numbers = (2.5, -2.5, 25, 0.29, 0, 1234.5678)
@@ -565,7 +575,8 @@ def coercions(mon, part):
                                 continue
                             args = [x, y, 1][:arity]
                             args[pos] = special
-                            mon.observe(F, args)
+                            if in_bounds(F, args):
+                                mon.observe(F, args)
             # two special arguments at once
             if arity >= 2:
                 for a in ARG_POOL:
@@ -573,7 +584,8 @@ def coercions(mon, part):
                         if not part.take():
                             continue
                         args = [a, b, 0][:arity]
-                        mon.observe(F, args)
+                        if in_bounds(F, args):
+                            mon.observe(F, args)
             # omitted optional arguments with plain numbers
             for x in numbers:
                 for y in base2:
@@ -605,7 +617,7 @@ def sample_binary(rng):
     if r < 0.35:
         return rng.uniform(-10, 10)
     if r < 0.6:
-        x = float(sample_decimal(rng))
+        x = float(sample_decimal(rng)) or 0.5
         for _ in range(rng.randint(1, 3)):
             x = math.nextafter(x, rng.choice((-math.inf, math.inf)))
         return x
@@ -665,7 +677,7 @@ def one_sample(mon, rng):
     else:
         x = sample_number(rng)
         if rng.random() < 0.3:
-            x = float(rng.randint(-1000, 1000))
+            x = float(rng.randint(-1000, 1000)) or 1.0
             for _ in range(rng.randint(0, 2)):
                 x = math.nextafter(x, rng.choice((-math.inf, math.inf)))
         mon.observe(rng.choice(('INT', 'EVEN', 'ODD')), (x,), sig=True)
@@ -677,16 +689,17 @@ def run(ctx):
     part = Shard(ctx)
     rng = ctx.rng
     offset = ctx.seed * 7919 + 3
-    coercions(mon, part)
-    # a fixed number of samples first (floors do not depend on the clock), the rest at the end
-    for _ in range(size['random'] // ctx.nshards):
-        one_sample(mon, rng)
+    # every part below has a fixed size (floors do not depend on the clock) ...
     family(mon, part, size, offset)
     mods(mon, part, size, offset)
     ints(mon, part, size, offset)
     multiples(mon, part, size, offset)
     ties(mon, part, size, offset)
+    for _ in range(size['random'] // ctx.nshards):
+        one_sample(mon, rng)
+    coercions(mon, part)
     mon.flush()
+    # ... and what is left of the budget goes into more samples
     n = 0
     while not ctx.out_of_time():
         one_sample(mon, rng)
